@@ -1,5 +1,6 @@
 """C04 -- optimization mode (-O) changes how, never what, is encoded (C and Go)."""
 import json
+import re
 import os
 import random
 
@@ -34,8 +35,15 @@ def op_events(pr, cdir, godir, endian):
                 raise opparse.ParseError("no Go Encode/Decode body for %s" % cname)
             for kind, lines in gb.items():
                 st = opparse.parse_body(lines, m, "go")
-                events.append({"ev": "OpBody", "t": t, "kind": kind, "mode": "go", "branch": "go", "msg": cname,
-                               "endian": "-", "zeroed": True, "uses_byte_view": False, "stmts": st})
+                ev = {"ev": "OpBody", "t": t, "kind": kind, "mode": "go", "branch": "go", "msg": cname,
+                      "endian": "-", "zeroed": True, "uses_byte_view": False, "stmts": st}
+                if kind == "enc":
+                    # where the encoder's buffer s comes from
+                    decl = [l.strip() for l in lines if re.match(r"\s*(var\s+s\b|s\s*:?=)", l)]
+                    mk = re.fullmatch(r"s := make\(\[\]byte, (\d+)\)", decl[0]) if len(decl) == 1 else None
+                    ev["buffer"] = {"kind": "fresh", "n": int(mk.group(1))} if mk else \
+                        {"kind": "other", "n": 0, "text": "; ".join(decl)[:120]}
+                events.append(ev)
     return events
 
 
@@ -86,6 +94,32 @@ def main(tier, replay=None):
                 metas.append(pr)
                 for f in gen.features(pr["rtype"]):
                     rep.feature(f)
+            # messages of 1 kB and more (Go): where the encoder's buffer comes from; the bodies themselves are the
+            # same statements as for small messages and are not evaluated at this size
+            for nbytes in ((1100,) if tier == "quick" else (1024, 1025, 1100, 4000, 8190)):
+                te = {"k": "array", "elem": {"k": "byte"}, "cap": gen.lit(nbytes - 1), "ext": False}
+                decl = {"d": "message", "name": "Top", "ext": False,
+                        "body": [{"d": "field", "name": "payload", "num": 1, "t": te},
+                                 {"d": "field", "name": "x", "num": 2, "t": {"k": "uint", "n": 3}}]}
+                pr = {"files": {"main": [{"d": "proto", "name": "main"}, decl]}, "order": ["main"], "main": "main",
+                      "top": "Top", "rtype": {"k": "msg", "name": "Top", "ext": False, "_decl": decl, "fields": [
+                          {"num": 1, "name": "payload", "t": {"k": "array", "ext": False, "cap": nbytes - 1,
+                                                              "elem": {"k": "byte"}, "_texpr": te}},
+                          {"num": 2, "name": "x", "t": {"k": "uint", "n": 3}}]}}
+                d = scratch.sub()
+                main_path, paths = render.write_program(pr, d)
+                drive.compile_program(paths, pr["order"], "go", d, optimize=True)
+                gb = opparse.go_bodies(open(os.path.join(d, "main_bp.go")).read(), "Top")
+                if "enc" not in gb:
+                    raise common.MachineryError("no Go Encode body for the %d-byte message" % nbytes)
+                decls_ = [l.strip() for l in gb["enc"] if re.match(r"\s*(var\s+s\b|s\s*:?=)", l)]
+                mk = re.fullmatch(r"s := make\(\[\]byte, (\d+)\)", decls_[0]) if len(decls_) == 1 else None
+                buf = {"kind": "fresh", "n": int(mk.group(1))} if mk else {"kind": "other", "n": 0, "text": "; ".join(decls_)[:120]}
+                traces.append({"id": "c04-gobuf-%d" % nbytes, "t": {"k": "bool"},
+                               "events": [{"ev": "GoEncBuffer", "t": gen.export_type(pr["rtype"]), "msg": "Top", "buffer": buf,
+                                           "stmts": [], "mode": "go", "branch": "go", "kind": "enc-buffer", "endian": "-"}]})
+                metas.append(pr)
+                rep.feature("go-encoder-buffer-of-large-message")
             # every leaf type at every bit offset (U_full), symbolically
             types = gen.ufull_leaf_types()
             if tier == "quick":
